@@ -279,7 +279,8 @@ func (w *World) rulesV4ScoreRest(m *scoreModel, modFn *types.Func, add func(ok b
 			shapeErr = "the rounded value is not `lookup - mean`: " + clip(in.String())
 			return
 		}
-		if mean.Op != "ite" || mean.Cond.Kind != "cmp" || mean.Cond.Op != "==" || mean.Cond.L.Op != "sym" || mean.Cond.R.String() != "0" || mean.Args[0].String() != "0" {
+		// `lower == 0` or, for a count that only grows from 0, `lower <= 0`
+		if mean.Op != "ite" || mean.Cond.Kind != "cmp" || (mean.Cond.Op != "==" && mean.Cond.Op != "<=") || mean.Cond.L.Op != "sym" || mean.Cond.R.String() != "0" || mean.Args[0].String() != "0" {
 			shapeErr = "the mean is not `lower != 0 ? sum/lower : 0`: " + clip(mean.String())
 			return
 		}
@@ -610,18 +611,112 @@ func (w *World) parseLoopNest(m *scoreModel, add func(ok bool, rule, inst string
 	}
 	// digitOf recognises the extraction of decimal digit k of a range variable:
 	// uint8((v % 10^(k+1)) / 10^k), uint8(v % 10), uint8((v / 10^k) % 10), with or without the conversion
-	digitOf := func(e ast.Expr) (types.Object, int, bool) {
+	// parameters of an inlined digit helper: bound to a range variable or a constant
+	helperRV := map[types.Object]types.Object{}
+	helperConst := map[types.Object]uint64{}
+	constOf := func(e ast.Expr) (uint64, bool) {
+		if u, ok := constUint(info, e); ok {
+			return u, true
+		}
+		if o := identObj(info, unparen(e)); o != nil {
+			if u, ok := helperConst[o]; ok {
+				return u, true
+			}
+		}
+		return 0, false
+	}
+	rvOf := func(e ast.Expr) types.Object {
+		o := identObj(info, unparen(e))
+		if o == nil {
+			return nil
+		}
+		if rangeOf[o] {
+			return o
+		}
+		if rv, ok := helperRV[o]; ok {
+			return rv
+		}
+		return nil
+	}
+	var digitOf func(e ast.Expr) (types.Object, int, bool)
+	digitOf = func(e ast.Expr) (types.Object, int, bool) {
 		e = unparen(e)
 		if call, ok := e.(*ast.CallExpr); ok {
 			if tv, isT := info.Types[call.Fun]; isT && tv.IsType() && len(call.Args) == 1 {
 				e = unparen(call.Args[0])
+			} else if fn := calleeOf(info, call); fn != nil && fn.Pkg() == p.P.Types {
+				// digit helper: `func digit(mx, unit int) uint8 { return uint8(mx / unit % 10) }`
+				if hfd := p.FuncObj[fn]; hfd != nil && hfd.Body != nil && len(hfd.Body.List) == 1 {
+					if rs, ok := hfd.Body.List[0].(*ast.ReturnStmt); ok && len(rs.Results) == 1 {
+						params := paramObjs(info, hfd)
+						if len(params) == len(call.Args) {
+							okArgs := true
+							for i, po := range params {
+								if rv := rvOf(call.Args[i]); rv != nil {
+									helperRV[po] = rv
+								} else if u, ok := constOf(call.Args[i]); ok {
+									helperConst[po] = u
+								} else {
+									okArgs = false
+								}
+							}
+							if okArgs {
+								return digitOf(rs.Results[0])
+							}
+						}
+					}
+				}
+				// any other helper h(rangeVar, constants…): identified by evaluating it on
+				// numbers with pairwise distinct digits
+				if hfd := p.FuncObj[fn]; hfd != nil && hfd.Body != nil {
+					var rv types.Object
+					rvIdx := -1
+					args := make([]Val, len(call.Args))
+					okArgs := true
+					for i, a := range call.Args {
+						if o := rvOf(a); o != nil && rv == nil {
+							rv, rvIdx = o, i
+						} else if u, ok := constOf(a); ok {
+							args[i] = vInt(int64(u))
+						} else {
+							okArgs = false
+						}
+					}
+					if okArgs && rv != nil {
+						pos := -2
+						for _, probe := range []int64{123456, 654321, 908172, 271809} {
+							args[rvIdx] = vInt(probe)
+							ce := newCEnv(p, nil)
+							ce.loops = true
+							v, err := ce.callFunc(hfd, append([]Val(nil), args...), call)
+							if err != nil || v.K != VInt {
+								pos = -1
+								break
+							}
+							k := -1
+							for d, q := 0, probe; q > 0; d, q = d+1, q/10 {
+								if q%10 == v.I {
+									k = d
+								}
+							}
+							if k < 0 || (pos >= 0 && k != pos) {
+								pos = -1
+								break
+							}
+							pos = k
+						}
+						if pos >= 0 {
+							return rv, pos, true
+						}
+					}
+				}
 			}
 		}
 		be, ok := e.(*ast.BinaryExpr)
 		if !ok {
 			return nil, 0, false
 		}
-		c, okc := constUint(info, be.Y)
+		c, okc := constOf(be.Y)
 		if !okc {
 			return nil, 0, false
 		}
@@ -632,12 +727,12 @@ func (w *World) parseLoopNest(m *scoreModel, add func(ok bool, rule, inst string
 				return nil, 0, false
 			}
 			x := unparen(be.X)
-			if o := identObj(info, x); o != nil && rangeOf[o] {
+			if o := rvOf(x); o != nil {
 				return o, 0, true
 			}
 			if q, ok := x.(*ast.BinaryExpr); ok && q.Op == token.QUO {
-				if b, ok := constUint(info, q.Y); ok && pow10(int64(b)) >= 0 {
-					if o := identObj(info, unparen(q.X)); o != nil && rangeOf[o] {
+				if b, ok := constOf(q.Y); ok && pow10(int64(b)) >= 0 {
+					if o := rvOf(q.X); o != nil {
 						return o, pow10(int64(b)), true
 					}
 				}
@@ -646,14 +741,27 @@ func (w *World) parseLoopNest(m *scoreModel, add func(ok bool, rule, inst string
 			// (v % A) / B with A == 10*B
 			x := unparen(be.X)
 			if r, ok := x.(*ast.BinaryExpr); ok && r.Op == token.REM {
-				if a, ok := constUint(info, r.Y); ok && a == 10*c && pow10(int64(c)) >= 0 {
-					if o := identObj(info, unparen(r.X)); o != nil && rangeOf[o] {
+				if a, ok := constOf(r.Y); ok && a == 10*c && pow10(int64(c)) >= 0 {
+					if o := rvOf(r.X); o != nil {
 						return o, pow10(int64(c)), true
 					}
 				}
 			}
 		}
 		return nil, 0, false
+	}
+	// locals defined once, before the loops, as a row of a table
+	hoisted := map[types.Object]ast.Expr{}
+	for _, s := range m.prefix {
+		if as, ok := s.(*ast.AssignStmt); ok && as.Tok == token.DEFINE && len(as.Lhs) == len(as.Rhs) {
+			for i, l := range as.Lhs {
+				if _, isIdx := unparen(as.Rhs[i]).(*ast.IndexExpr); isIdx {
+					if o := identObj(info, l); o != nil && !assignedIn(info, m.fd.Body, o) {
+						hoisted[o] = as.Rhs[i]
+					}
+				}
+			}
+		}
 	}
 	okAll := true
 	var walk func(stmts []ast.Stmt)
@@ -664,7 +772,14 @@ func (w *World) parseLoopNest(m *scoreModel, add func(ok bool, rule, inst string
 			}
 			switch st := s.(type) {
 			case *ast.RangeStmt:
-				ix2, ok := st.X.(*ast.IndexExpr)
+				// the table row may have been hoisted into a local: rows := table[EQ][level]
+				rx := st.X
+				if o := identObj(info, unparen(rx)); o != nil {
+					if def, ok := hoisted[o]; ok {
+						rx = def
+					}
+				}
+				ix2, ok := unparen(rx).(*ast.IndexExpr)
 				var ri rangeInfo
 				ri.Stmt = st
 				ri.Var = identObj(info, st.Value)
